@@ -657,6 +657,8 @@ class Interp:
             flat = a.ravel()
             if len(flat) and all(isinstance(x, (bool, np.bool_)) for x in flat):
                 return a.astype(bool)
+            if not len(flat):
+                return a.astype(self.dtype_of(a))
             if all(isinstance(x, (int, float, np.integer, np.floating)) and not isinstance(x, bool) for x in flat):
                 dt = self.dtype_of(a)
                 try:
@@ -1012,6 +1014,8 @@ class Interp:
         if dt.kind == 'u' and dt.itemsize == 1 and isinstance(v, SInt):
             return v & 0xFF
         if dt.kind in 'iu' and isinstance(v, Num):
+            if self.tags and any(v is t for t in self.tags.values()):
+                return v            # a coordinate symbol of an integer-typed geometry array: already an integer
             return self.float_to_int(v)
         if dt.kind in 'iu' and isinstance(v, float):
             return int(v)
@@ -1204,6 +1208,8 @@ class Interp:
                     return self.dtype_of(base)
                 return getattr(base, attr)
             return _NdMethod(base, attr)
+        if attr == '__class__' and not isinstance(base, (SelfObj, np.ndarray, Num, SInt, SBool)):
+            return type(base)
         if self.is_repo_obj(base):
             try:
                 raw = inspect.getattr_static(type(base), attr)
